@@ -73,7 +73,40 @@ def pick_ro_opts(rng, items):
     return o
 
 
+def gen_sparse_layer(rng):
+    """a layer in which (almost) nothing collides at its targets: items far apart, plus a few stub pairs whose targets are closer than two
+    stubs may be (stub width + line spacing) though farther apart than the label spacing alone would demand, and a few items that just
+    touch.  Whatever shortcut an implementation takes for layers that "need no work" must still keep the stub pairs apart."""
+    n = rng.choice([2, 3, 5, 8, 12])
+    ns = rng.choice([0, 0, 0.5, 1, 1.5, 3])
+    ls = rng.choice([2, 2, 2, 4, 1])
+    sw = rng.choice([1, 1, 0, 2])
+    items, x = [], rng.choice([0, 10, 37.5])
+    for _ in range(n):
+        w = rng.choice([5, 10, 20, 33.5])
+        kind = rng.random()
+        if kind < 0.45:          # a stub pair (or triple) closer than stubs may be
+            items.append((x, sw, True))
+            for _k in range(rng.choice([1, 1, 2])):
+                x += sw + rng.choice([ns, ns + 0.25, (ns + ls) / 2, max(ns, ls - 0.5)])
+                items.append((x, sw, True))
+        elif kind < 0.6:         # a label with a stub right beside it (label spacing applies)
+            items.append((x, w, False))
+            x += (w + sw) / 2 + ns + rng.choice([0, 0, 0.5])
+            items.append((x, sw, True))
+        else:
+            items.append((x, w, False))
+        x += w + 40 + rng.choice([0, 3, 25.5])
+    rng.shuffle(items)
+    o = {"nodeSpacing": ns, "minPos": rng.choice([None, 0, -50]), "maxPos": rng.choice([None, x + 100])}
+    if ls != 2 or rng.random() < 0.3:
+        o["lineSpacing"] = ls
+    return items, o
+
+
 def gen_layer(rng, tier):
+    if rng.random() < 0.12:
+        return gen_sparse_layer(rng)
     big = tier != "quick"
     n = rng.choice([1, 2, 3, 4, 5, 8, 12, 20, 40] + ([60] if not big else [80, 120, 200]))
     span = rng.choice([50, 200, 1000, 100000 if rng.random() < 0.2 else 1000])
@@ -139,6 +172,8 @@ def gen_force_opts(rng, labels, span):
         o["density"] = rng.choice([0.85, 0.75, 1, 0.5, 0.3, 0.999])
     if rng.random() < 0.5:
         o["stubWidth"] = rng.choice([1, 0, 2, 5])
+    if rng.random() < 0.15:
+        o["lineSpacing"] = rng.choice([0, 1, 4, 14, 2])       # the engine forwards it to removeOverlap only when the caller sets it
     return o
 
 
